@@ -134,7 +134,7 @@ theorem dry_genname (env envc : PEnv) (md : Maildir) (flags : Option Bytes) (fue
   | succ fuel ih =>
     unfold genname
     simp only [bind_eq, pure_eq, call_bind]
-    generalize (decimalInt env.now ++ [46] ++ decimal env.pid ++ [95] ++ decimal (count + 1) ++ [46] ++ env.host ++
+    generalize (decimalInt env.now ++ [46] ++ decimal env.pid ++ [95] ++ decimal ((count + 1) % gennameWrap) ++ [46] ++ env.host ++
           flags.getD []) = nm
     split
     · intro _ _ h; cases h
@@ -230,7 +230,7 @@ theorem dry_maildirStdin (env : PEnv) (input : Bytes) (tr : Trace) :
         simp only [ret_bind, Bool.false_eq_true, if_false]
         have hdir : dry_IsDir (tr1 ++ [(Call.mkdir p, r2)] ++ [(Call.opendir p, Res.ok h)]) h :=
           ⟨p, (hnew.mono _).mono _, dry_mem_snoc _ _⟩
-        refine wp_bind_ext (dry_genname env env _ none 4096 _ _ ?_) ?_
+        refine wp_bind_ext (dry_genname env env _ none gennameAttempts _ _ ?_) ?_
         · intro d hd
           cases hd
           exact hdir
